@@ -100,15 +100,17 @@ func MapOps(fn *ssa.Function) []MapOp {
 			if isMap(x.X.Type()) {
 				mk(in, "range", x.X, nil, nil)
 			}
-		case *ssa.Call:
-			if b, ok := x.Call.Value.(*ssa.Builtin); ok && len(x.Call.Args) > 0 && isMap(x.Call.Args[0].Type()) {
+		case ssa.CallInstruction:
+			// (a deferred or go'ed builtin mutates the map all the same)
+			cc := x.Common()
+			if b, ok := cc.Value.(*ssa.Builtin); ok && len(cc.Args) > 0 && isMap(cc.Args[0].Type()) {
 				switch b.Name() {
 				case "delete":
-					mk(in, "delete", x.Call.Args[0], x.Call.Args[1], nil)
+					mk(in, "delete", cc.Args[0], cc.Args[1], nil)
 				case "clear":
-					mk(in, "clear", x.Call.Args[0], nil, nil)
+					mk(in, "clear", cc.Args[0], nil, nil)
 				case "len":
-					mk(in, "len", x.Call.Args[0], nil, nil)
+					mk(in, "len", cc.Args[0], nil, nil)
 				}
 			}
 		}
@@ -130,13 +132,13 @@ func BuiltinCall(in ssa.Instruction, name string) ([]ssa.Value, bool) {
 	if in == nil {
 		return nil, false
 	}
-	c, ok := in.(*ssa.Call)
+	c, ok := in.(ssa.CallInstruction)
 	if !ok {
 		return nil, false
 	}
-	b, ok := c.Call.Value.(*ssa.Builtin)
+	b, ok := c.Common().Value.(*ssa.Builtin)
 	if !ok || b.Name() != name {
 		return nil, false
 	}
-	return c.Call.Args, true
+	return c.Common().Args, true
 }
